@@ -6,6 +6,7 @@ import (
 	"go/token"
 	"go/types"
 	"strings"
+	"unicode"
 
 	"golang.org/x/tools/go/ssa"
 )
@@ -85,6 +86,12 @@ func evalByteCond(v ssa.Value, cv ssa.Value, c int64, depth int) (bool, bool) {
 	return false, false
 }
 
+var pureStdlib = map[string]func(rune) bool{
+	"unicode.IsLetter": unicode.IsLetter, "unicode.IsNumber": unicode.IsNumber, "unicode.IsDigit": unicode.IsDigit,
+	"unicode.IsSpace": unicode.IsSpace, "unicode.IsUpper": unicode.IsUpper, "unicode.IsLower": unicode.IsLower,
+	"unicode.IsPunct": unicode.IsPunct,
+}
+
 // interpPure evaluates a side-effect-free single-parameter integer/boolean function for one concrete
 // argument by walking its CFG (comparisons, arithmetic, phis, conversions, nested pure predicates only).
 // ok is false as soon as anything else is met: the caller then reports the decision as not evaluable.
@@ -161,6 +168,18 @@ func interpPure(fn *ssa.Function, arg int64, depth int) (int64, bool) {
 			}
 		case *ssa.Call:
 			callee := x.Call.StaticCallee()
+			if callee != nil && !x.Call.IsInvoke() && len(x.Call.Args) == 1 {
+				// pure character-class functions of the standard library, by their documented meaning
+				if f, ok := pureStdlib[calleeName(x)]; ok {
+					if a, ok := eval(x.Call.Args[0]); ok {
+						if f(rune(a)) {
+							return 1, true
+						}
+						return 0, true
+					}
+					return 0, false
+				}
+			}
 			if callee != nil && !x.Call.IsInvoke() && len(callee.Params) == 1 && len(x.Call.Args) == 1 && len(callee.Blocks) > 0 {
 				if a, ok := eval(x.Call.Args[0]); ok {
 					return interpPure(callee, a, depth+1)
